@@ -297,10 +297,21 @@ class InfoSnap(tuple):
         return self
 
 
+def _num_repr(v):
+    """repr with numbers as floats: extractInfo's formatters write integral values as ints (685.0 -> 685), which is the same number"""
+    if isinstance(v, bool):
+        return repr(v)
+    if isinstance(v, (int, float)):
+        return repr(float(v))
+    if isinstance(v, (list, tuple)):
+        return "[" + ", ".join(_num_repr(x) for x in v) + "]"
+    return repr(v)
+
+
 def info_snapshot(o):
     # the three attributes that have clauses of their own (contracts/c19d.py), and postscriptWeightName which round() derives from one of them, are left out
     skip = ("guidelines", "openTypeOS2WeightClass", "openTypeOS2WidthClass", "italicAngle", "postscriptWeightName")
-    s = InfoSnap(("info", tuple(sorted((k, repr(v)) for k, v in vars(o).items() if v is not None and k not in skip))))
+    s = InfoSnap(("info", tuple(sorted((k, _num_repr(v)) for k, v in vars(o).items() if v is not None and k not in skip))))
     s.live = o
     return s
 
